@@ -180,9 +180,10 @@ def synth(st, rng, hint='', wild=True):
 class Policy:
     """decisions of the instance generator"""
 
-    def __init__(self, rng, mode='full', branch_shift=0, depth_limit=9, rep=2, wild=False):
+    def __init__(self, rng, mode='full', branch_shift=0, depth_limit=9, rep=2, wild=False, rec_depth=0):
         self.rng, self.mode, self.branch_shift, self.depth_limit, self.rep = rng, mode, branch_shift, depth_limit, rep
         self.wild = wild
+        self.rec_depth = rec_depth       # how many times a recursive element declaration is unfolded inside itself
 
     def count(self, p, depth, recursive):
         mn, mx = p.min, p.max
@@ -252,7 +253,7 @@ def gen_element(e, pol, nsmap, depth=0, stack=()):
 
 def gen_particle(p, pol, depth, stack):
     """list of elements for particle p (None = cannot satisfy)"""
-    recursive = isinstance(p, X.Elem) and isinstance(p.type, X.ComplexType) and p.type.name in stack
+    recursive = isinstance(p, X.Elem) and isinstance(p.type, X.ComplexType) and stack.count(p.type.name) > pol.rec_depth
     if isinstance(p, X.AnyP):
         return []
     n = pol.count(p, depth, recursive)
